@@ -50,6 +50,7 @@ class Shard:
         self.buckets = {}                # bucket -> {"count": n, "cases": [(size, case, failure)]}
         self.exhaustive = {}             # name -> description of a fully enumerated sub-domain
         self.notes = collections.Counter()
+        self.sets = collections.defaultdict(set)   # name -> set of hashes (sizes reported in the evidence)
         self._sample_stride = 1
 
     # -- per case ---------------------------------------------------------
@@ -96,6 +97,7 @@ class Shard:
             "buckets": self.buckets,
             "exhaustive": self.exhaustive,
             "notes": self.notes,
+            "sets": dict(self.sets),
         }
 
 
@@ -120,6 +122,8 @@ def merge(results):
         out.excluded.update(r["excluded"])
         out.notes.update(r["notes"])
         out.exhaustive.update(r["exhaustive"])
+        for k, v in r.get("sets", {}).items():
+            out.sets[k] |= v
         out.samples.extend(r["samples"][: max(1, MAX_SAMPLES // max(1, len(results)) + 1)])
         for k, b in r["buckets"].items():
             ob = out.buckets.setdefault(k, {"count": 0, "cases": []})
@@ -342,6 +346,7 @@ def _main(prop, tier, seed, replay, t0) -> int:
             "exhaustive": bool(total.exhaustive) and getattr(mod, "WHOLLY_EXHAUSTIVE", False),
             "exhaustive_subdomains": total.exhaustive,
             "notes": dict(sorted(total.notes.items())),
+            "distinct_counts": {k: len(v) for k, v in sorted(total.sets.items())},
             "shards": len(specs),
             "known_findings_hit": known_hit,
             "violation_details": [{k: v for k, v in x.items()} for x in violations],
